@@ -111,6 +111,7 @@ func checkC13(c *ev.Ctx) {
 	c.MinEvals(int64(n / 2))
 	par(n, func(i int) {
 		id := fmt.Sprintf("t%d", i)
+		noteCase(id)
 		if !want(c, id) {
 			return
 		}
